@@ -178,4 +178,31 @@ theorem status_tables :
   simp only [List.mem_cons, List.mem_nil_iff, or_false] at hres
   rcases hres with h | h | h | h <;> subst h <;> decide
 
+/-- the db method an operation of the model stands for -/
+def methodOf : Op → String
+  | .getCond _ _ => "GetConditional"
+  | .getVersion _ _ => "GetVersion"
+  | .get _ => "Get"
+  | _ => "-"
+
+/-- T1, translated: the `/api/get` handler's choice of database method, regenerated from
+server/server.go on every run, is the model's `getOp`; and `Client.GetIfChanged`,
+regenerated from client/setec/client.go, short-circuits exactly version 0
+(`api.SecretVersionDefault`) to a plain get, as the model's `clientGetIfChanged`. -/
+theorem generated_get_dispatch (name : String) (version : Nat) (flag : Bool) :
+    Facts.gen_getDispatch_ok = true ∧ Facts.gen_clientGetIfChanged_ok = true ∧ Facts.secretVersionDefault = some 0 ∧
+    Facts.gen_getDispatch flag version = methodOf (getOp name version flag) ∧
+    (Facts.gen_clientGetIfChanged version 0 = "Get" ↔ clientGetIfChanged name version = Op.get name) := by
+  refine ⟨by decide, by decide, by decide, ?_, ?_⟩
+  · unfold Facts.gen_getDispatch getOp
+    by_cases hv : version = 0
+    · subst hv; simp [methodOf]
+    · have : ((version : Int) != 0) = true := by simp; omega
+      cases flag <;> simp [hv, this, methodOf]
+  · unfold Facts.gen_clientGetIfChanged clientGetIfChanged getOp
+    by_cases hv : version = 0
+    · subst hv; simp
+    · have : ((version : Int) == 0) = false := by simp; omega
+      simp [hv, this]
+
 end Setec.C08
